@@ -191,7 +191,7 @@ impl Check for C01 {
 
     fn runs(&self, tier: Tier) -> u64 {
         match tier {
-            Tier::Quick => 60_000,
+            Tier::Quick => 300_000,
             Tier::Thorough => 3_000_000,
         }
     }
@@ -218,7 +218,16 @@ impl Check for C01 {
                 ApiRun::Ok { .. } => (true, None),
                 ApiRun::Err(e) => (false, Some(e.clone())),
                 ApiRun::Panic(pi) => {
-                    if pi.frame.contains("report/") || pi.location.contains("report/") {
+                    if pi.location.contains("rust_decimal") && pi.message.contains("overflowed") {
+                        // an intermediate product beyond the 28-29 digits of a decimal
+                        // (DONT_CARE of section 6): reported as information, not judged
+                        out.violate_keyed(
+                            "C01/out-of-range",
+                            pi.signature(),
+                            pi.signature(),
+                            format!("decimal arithmetic overflowed: {}", pi.signature()),
+                        );
+                    } else if pi.frame.contains("report/") || pi.location.contains("report/") {
                         out.violate_keyed(
                             "C01/crash",
                             pi.signature(),
